@@ -328,6 +328,11 @@ pub fn game_with(r: &mut Rng, shapes: &[&str], min_infosets: usize, tweak: impl 
 /// games for the command-line checks: every number is an exact short decimal / small integer
 pub fn cli_game(r: &mut Rng, min_infosets: usize, max_nodes: usize) -> (MNode, &'static str) {
     let shapes = ["poker", "mixed", "degenerate", "simultaneous", "tiny", "chain", "lopsided", "bushy"];
+    // the smallest game there is: the root is a terminal
+    if min_infosets == 0 && r.coin(0.01) {
+        let x = (r.below(20001) as f64 - 10000.0) / 1000.0;
+        return (MNode::T(x), "terminal");
+    }
     let (g, shape) = game_with(r, &shapes, min_infosets, |s| {
         s.decimal_payoffs = true;
         s.integer_payoffs = false;
